@@ -16,8 +16,9 @@ def parseSpec (fs : FS) (s : String) : Option (List Sys) :=
   match s.splitOn ":" with
   | ["U", t, o, n, d] => some (updateProg t.toList fs o.toList n.toList (hexb d))
   | ["T", t, p, d] => some (tempRename t.toList p.toList (hexb d))
-  | ["C", t, f, d] => some (createLink t.toList f.toList (hexb d))
-  | ["R", t, o, n, d] => some (renameUpdate t.toList o.toList n.toList (hexb d))
+  | ["F", t, p, d] => some (freshTempRename t.toList p.toList (hexb d))
+  | ["C", t, f, d] => some (freshCreateLink t.toList f.toList (hexb d))
+  | ["R", t, o, n, d] => some (freshRenameUpdate t.toList o.toList n.toList (hexb d))
   | ["D", p] => some [.remove p.toList]
   | ["W", p, d] => some (directWrite p.toList (hexb d))
   | _ => none
